@@ -474,6 +474,14 @@ class Engine:
         op = {"op": kind, "lw": name, "wells": [w for w, _ in ws], "pos": enc(tuple(d["grid_site"]) if d.get("grid_site") else (rng.randint(1, 67), rng.randint(1, 128))),
               "tips": tips, "vol": enc(v_arg), "lc": rng.choice(["Water", "", "DMSO"]), "arm": rng.choice([0, 0, 1]),
               "label": rng.choice(SAFE_LABELS), "_fault": fault, "_shapes": ["list", "scalar" if not isinstance(v_arg, list) else "list"]}
+        if n >= 4 and n % 2 == 0 and rng.random() < 0.3:
+            # the wells as a 2-D block (read column-major like everywhere in robotools), the volumes as the flat list
+            ids = list(op["wells"])
+            r_ = rng.choice([2, n // 2])
+            c_ = n // r_
+            nested = [[ids[j * r_ + i] for j in range(c_)] for i in range(r_)]
+            op["wells"] = nested if rng.random() < 0.5 else enc(np.array(nested))
+            op["_shapes"][0] = f"2d:{r_}x{c_}"
         if adding:
             op["comps"] = enc(self.comps_for(n)) if rng.random() < self.profile["comps"] else None
         return op
